@@ -358,7 +358,7 @@ fn core_part(tier: Tier) -> Part<'static, Sys> {
     }
 }
 
-static LS_REGIONS: LockStep = LockStep { property: "C16", probes: false, seed: None, via_feed: false, merged: false };
+static LS_REGIONS: LockStep = LockStep { property: "C16", probes: false, seed: None, via_feed: false, merged: true };
 
 /// excursions from and into screens with scroll regions and origin mode: what the program
 /// on the alternate screen does to the margins must not bend the cursor that 1049 restores
